@@ -1031,3 +1031,118 @@ func BadW2down(hist []uint64, limit int, want uint64) bool {
 	}
 	return false
 }
+
+// ---- T3 (taken elsewhere): the buffer of a dequeued item goes back once ----------------------------------------------------------
+
+type t3item struct {
+	ssrc uint32
+	buf  *[]byte
+}
+
+type t3drain struct {
+	pool  sync.Pool
+	queue []*t3item
+	w     map[uint32]interceptor.RTPWriter
+}
+
+func (d *t3drain) deliverGood(it *t3item) bool {
+	w, ok := d.w[it.ssrc]
+	if !ok {
+		return false
+	}
+	_, _ = w.Write(&rtp.Header{SSRC: it.ssrc}, *it.buf, nil)
+	return true
+}
+
+func (d *t3drain) GoodT3run() {
+	for len(d.queue) > 0 {
+		it := d.queue[0]
+		d.queue = d.queue[1:]
+		if !d.deliverGood(it) {
+			d.pool.Put(it.buf)
+			continue
+		}
+		d.pool.Put(it.buf)
+	}
+}
+
+func (d *t3drain) deliverBad(it *t3item) bool {
+	w, ok := d.w[it.ssrc]
+	if !ok {
+		d.pool.Put(it.buf)
+		return false
+	}
+	_, _ = w.Write(&rtp.Header{SSRC: it.ssrc}, *it.buf, nil)
+	return true
+}
+
+func (d *t3drain) BadT3run() {
+	for len(d.queue) > 0 {
+		it := d.queue[0]
+		d.queue = d.queue[1:]
+		d.deliverBad(it)
+		d.pool.Put(it.buf)
+	}
+}
+
+// ---- O6: every sequence number a NACK names is looked at ---------------------------------------------------------------------------
+
+type o6pair struct {
+	first uint16
+	mask  uint16
+}
+
+func (n *o6pair) Range(f func(seq uint16) bool) {
+	if !f(n.first) {
+		return
+	}
+	for i := uint16(0); i < 16; i++ {
+		if n.mask&(1<<i) != 0 && !f(n.first+i+1) {
+			return
+		}
+	}
+}
+
+func GoodO6resend(n *o6pair, w interceptor.RTPWriter) {
+	n.Range(func(seq uint16) bool {
+		if _, err := w.Write(&rtp.Header{SequenceNumber: seq}, nil, nil); err != nil {
+			_ = err
+		}
+		return true
+	})
+}
+
+func BadO6resend(n *o6pair, w interceptor.RTPWriter) {
+	n.Range(func(seq uint16) bool {
+		if _, err := w.Write(&rtp.Header{SequenceNumber: seq}, nil, nil); err != nil {
+			return false
+		}
+		return true
+	})
+}
+
+// ---- G5: the last report wins, for every figure alike ------------------------------------------------------------------------------
+
+type g5ack struct {
+	arrived bool
+	at      int64
+	ecn     uint8
+}
+
+type g5rec struct {
+	Arrived bool
+	At      int64
+	ECN     uint8
+}
+
+func GoodG5apply(r *g5rec, ack g5ack) {
+	r.Arrived = ack.arrived
+	r.At = ack.at
+	r.ECN = ack.ecn
+}
+
+func BadG5apply(r *g5rec, ack g5ack) {
+	r.Arrived = r.Arrived || ack.arrived
+	r.At = ack.at
+	r.ECN = ack.ecn
+}
